@@ -814,9 +814,8 @@ static bool expand_macro(Token **rest, Token *tok) {
   return true;
 }
 
-// For a file that was found through the include paths, the position
-// of its directory in the list, plus one. #include_next continues the
-// search from there.
+// For a path that was found through the include paths, the position
+// of its directory in the list, plus one.
 static HashMap include_dir_idx;
 
 char *search_include_paths(char *filename) {
@@ -842,10 +841,10 @@ char *search_include_paths(char *filename) {
 
 // #include_next searches the directories that follow the one in which
 // the current file was found. A file that was not found through the
-// include paths searches all of them.
+// include paths (the main file, or a header found next to its
+// includer) searches all of them.
 static char *search_include_next(char *filename, File *current) {
-  int start = (long)hashmap_get(&include_dir_idx, current->name);
-  for (int i = start; i < include_paths.len; i++) {
+  for (int i = current->include_dir_idx; i < include_paths.len; i++) {
     char *path = format("%s/%s", include_paths.data[i], filename);
     if (!file_exists(path))
       continue;
@@ -941,7 +940,7 @@ static char *detect_include_guard(Token *tok) {
   return NULL;
 }
 
-static Token *include_file(Token *tok, char *path, Token *filename_tok) {
+static Token *include_file(Token *tok, char *path, Token *filename_tok, bool searched) {
   // Check for "#pragma once". The same file may be reached through
   // different spellings of its path, so compare canonical paths.
   char *canon = realpath(path, NULL);
@@ -964,6 +963,8 @@ static Token *include_file(Token *tok, char *path, Token *filename_tok) {
   if (!tok2)
     error_tok(filename_tok, "%s: cannot open file: %s", path, strerror(errno));
   tok2->file->include_depth = filename_tok->file->include_depth + 1;
+  if (searched)
+    tok2->file->include_dir_idx = (long)hashmap_get(&include_dir_idx, path);
 
   guard_name = detect_include_guard(tok2);
   if (guard_name)
@@ -1028,13 +1029,13 @@ static Token *preprocess2(Token *tok) {
       if (filename[0] != '/' && is_dquote) {
         char *path = format("%s/%s", dirname(strdup(start->file->name)), filename);
         if (file_exists(path)) {
-          tok = include_file(tok, path, start->next->next);
+          tok = include_file(tok, path, start->next->next, false);
           continue;
         }
       }
 
       char *path = search_include_paths(filename);
-      tok = include_file(tok, path ? path : filename, start->next->next);
+      tok = include_file(tok, path ? path : filename, start->next->next, path != NULL);
       continue;
     }
 
@@ -1042,7 +1043,7 @@ static Token *preprocess2(Token *tok) {
       bool ignore;
       char *filename = read_include_filename(&tok, tok->next, &ignore);
       char *path = search_include_next(filename, start->file);
-      tok = include_file(tok, path ? path : filename, start->next->next);
+      tok = include_file(tok, path ? path : filename, start->next->next, path != NULL);
       continue;
     }
 
